@@ -144,6 +144,35 @@ func Misuses() []Misuse {
 		}
 		out = append(out, mw)
 	}
+	// RPC-position family: every service-level rule again with the offending RPC followed by, preceded by and between valid
+	// RPCs of the same service (a service is refused whichever of its RPCs breaks the rule)
+	for _, mu := range base {
+		mu := mu
+		if mu.Service == nil {
+			continue
+		}
+		for _, pos := range []string{"followed_by_valid_rpc", "preceded_by_valid_rpc", "between_valid_rpcs"} {
+			pos := pos
+			d := mu
+			d.Rule = mu.Rule + "_" + pos
+			d.Service = func() ([]*spec.Message, *spec.Service) {
+				ms, svc := mu.Service()
+				ms = append(ms, spec.M("PingReq", spec.F("text", "string")), spec.M("PingOut", spec.F("text", "string")))
+				before := spec.RPC("PingBefore", "PingReq", "PingOut", "POST", "/ping-before")
+				after := spec.RPC("PingAfter", "PingReq", "PingOut", "POST", "/ping-after")
+				switch pos {
+				case "followed_by_valid_rpc":
+					svc.Methods = append(svc.Methods, after)
+				case "preceded_by_valid_rpc":
+					svc.Methods = append([]*spec.Method{before}, svc.Methods...)
+				default:
+					svc.Methods = append(append([]*spec.Method{before}, svc.Methods...), after)
+				}
+				return ms, svc
+			}
+			out = append(out, d)
+		}
+	}
 	// sibling family: every rule whose offending message consists of the offending field alone, again with unrelated
 	// sibling fields before and after it (a validation must not depend on the offender being the only field)
 	for _, mu := range base {
